@@ -434,9 +434,14 @@ def evaluate__sum(self: XPathFunction, context: ta.ContextType = None) -> ta.One
     xsd_version = self.parser.xsd_version
     values: list[Any]
     try:
-        values = [get_double(self.string_value(x), xsd_version)
-                  if isinstance(x, XPathNode) else x
-                  for x in self[0].select_flatten(context)]
+        values = []
+        for x in self[0].select_flatten(context):
+            if not isinstance(x, XPathNode):
+                values.append(x)
+            elif self.parser.version != '1.0' and getattr(x, 'is_typed', False):
+                values.extend(x.iter_typed_values)  # a schema-typed node: its typed value(s)
+            else:
+                values.append(get_double(self.string_value(x), xsd_version))
     except (TypeError, ValueError):
         if self.parser.version == '1.0':
             return math.nan
